@@ -215,6 +215,10 @@ enum Fault {
     RespEmpty,
     RespStatus(u16),
     HandlerRawGarbage,
+    /// a complete, valid encoding followed by more bytes (JSON: not a message any more;
+    /// bincode's legacy configuration ignores trailing bytes, so only JSON methods are judged)
+    ReqTrailing,
+    RespTrailing,
 }
 
 /// Sits between the generated client and the router; damages payloads on the way.
@@ -244,6 +248,11 @@ where
                 *req.body_mut() = b.slice(..b.len().saturating_sub(1));
             }
             Fault::ReqGarbage => *req.body_mut() = Bytes::from_static(b"\xff\xff\xff\xff\xff\xff\xff\xff\xff"),
+            Fault::ReqTrailing => {
+                let mut b = req.body().to_vec();
+                b.extend_from_slice(b"{\"a\":1}junk");
+                *req.body_mut() = Bytes::from(b);
+            }
             _ => {}
         }
         let fault = self.fault;
@@ -257,12 +266,22 @@ where
                 }
                 Fault::RespGarbage => *resp.body_mut() = Bytes::from_static(b"\xff\xff\xff\xff\xff\xff\xff\xff\xff"),
                 Fault::RespEmpty => *resp.body_mut() = Bytes::new(),
+                Fault::RespTrailing => {
+                    let mut b = resp.body().to_vec();
+                    b.extend_from_slice(b"]junk");
+                    *resp.body_mut() = Bytes::from(b);
+                }
                 Fault::RespStatus(c) => *resp.status_mut() = StatusCode::new(c).unwrap(),
                 _ => {}
             }
             Ok(resp)
         })
     }
+}
+
+/// which methods of the definition set use the JSON codec (see build.rs)
+fn is_json(svc: &str, method: &str) -> bool {
+    method == "say_hello" || method == "mm" || (svc == "Greeter" && method == "m")
 }
 
 struct Case {
@@ -296,7 +315,7 @@ fn judge(out: &mut Out, case: &Case, msg: &Msg, outcome: &Outcome, fault: Fault,
         Ok(r) => r,
     };
     let log = h.log.lock().unwrap().clone();
-    let request_intact = !matches!(fault, Fault::ReqTruncate | Fault::ReqGarbage);
+    let request_intact = !matches!(fault, Fault::ReqTruncate | Fault::ReqGarbage | Fault::ReqTrailing);
     if request_intact {
         if log.len() != 1 || log[0].0 != case.svc || log[0].1 != case.method || log[0].2 != *msg {
             v("wrong-handler", format!("expected exactly one invocation of handler {}::{} with the sent message, the handlers saw {:?} (route used: {:?})", case.svc, case.method, log, routes));
@@ -306,7 +325,7 @@ fn judge(out: &mut Out, case: &Case, msg: &Msg, outcome: &Outcome, fault: Fault,
         v("wrong-handler", "a damaged request payload was delivered to the handler as the original message".to_string());
     }
     let handler_ok = matches!(outcome, Outcome::Ok);
-    let response_intact = !matches!(fault, Fault::RespTruncate | Fault::RespGarbage | Fault::RespEmpty | Fault::RespStatus(_) | Fault::HandlerRawGarbage);
+    let response_intact = !matches!(fault, Fault::RespTruncate | Fault::RespGarbage | Fault::RespEmpty | Fault::RespStatus(_) | Fault::HandlerRawGarbage | Fault::RespTrailing);
     let class;
     match (&result, request_intact, handler_ok, response_intact) {
         (Ok(r), true, true, true) => {
@@ -369,7 +388,7 @@ macro_rules! run_service {
             }
             v
         };
-        let faults = [Fault::None, Fault::ReqTruncate, Fault::ReqGarbage, Fault::RespTruncate, Fault::RespGarbage, Fault::RespEmpty, Fault::RespStatus(404), Fault::RespStatus(520), Fault::HandlerRawGarbage];
+        let faults = [Fault::None, Fault::ReqTruncate, Fault::ReqGarbage, Fault::RespTruncate, Fault::RespGarbage, Fault::RespEmpty, Fault::RespStatus(404), Fault::RespStatus(520), Fault::HandlerRawGarbage, Fault::ReqTrailing, Fault::RespTrailing];
         $(
         for msg in &msgs {
             for outcome in &outcomes {
@@ -379,6 +398,9 @@ macro_rules! run_service {
                         continue;
                     }
                     if fault == Fault::HandlerRawGarbage && !$raw {
+                        continue;
+                    }
+                    if matches!(fault, Fault::ReqTrailing | Fault::RespTrailing) && !is_json($svc, stringify!($m)) {
                         continue;
                     }
                     if !matches!(outcome, Outcome::Ok) && fault != Fault::None {
